@@ -167,8 +167,10 @@ def curved_pairs(draw):
         return {"kind": kind, "dx": draw(half(-3, 3)), "dy": draw(half(-3, 3)),
                 "r": draw(st.sampled_from([F(1), F(2), F(3, 2)]))}
     vals = st.integers(-12, 12).map(lambda v: F(v, 2))
-    A = draw(gen.curves(1, 3, 0, nums=("float",), rational=False, dim=2, values=vals, interval=(F(0), F(1))))
-    B = draw(gen.curves(1, 3, 0, nums=("float",), rational=False, dim=2, values=vals, interval=(F(0), F(1))))
+    ia = draw(st.sampled_from([(F(0), F(1)), (F(0), F(1)), (F(-1), F(1)), (F(2), F(5)), (F(-3), F(-1, 2))]))
+    ib = draw(st.sampled_from([(F(0), F(1)), (F(0), F(1)), (F(-2), F(0)), (F(1, 3), F(7, 3))]))
+    A = draw(gen.curves(1, 3, 0, nums=("float",), rational=False, dim=2, values=vals, interval=ia))
+    B = draw(gen.curves(1, 3, 0, nums=("float",), rational=False, dim=2, values=vals, interval=ib))
     return {"kind": kind, "A": A, "B": B}
 
 
